@@ -296,3 +296,22 @@ M('C02', 'ravel-order-K', 'zonal.py', "    flatten_zones = zones.ravel()\n", "  
 M('C04', 'crosstab3d-enumerate-selection', 'zonal.py', "    # 2D flatten `zone_values`, i.e, original data is 3D\n    for j, cat in enumerate(unique_cats):\n        if cat in cat_ids:", "    # 2D flatten `zone_values`, i.e, original data is 3D\n    for j, cat in enumerate(cat_ids):\n        if cat in unique_cats:", 'X-key')
 M('C03', 'block-early-out-sorted-ids', 'zonal.py', "    _, values_by_zones, zone_breaks = _sort_and_stride(zones_block, values_block, unique_zones)\n    results = _calc_stats(", "    if np.nanmax(zones_block) < zone_ids[0] or np.nanmin(zones_block) > zone_ids[-1]:\n        return np.full(unique_zones.shape, np.nan)\n    _, values_by_zones, zone_breaks = _sort_and_stride(zones_block, values_block, unique_zones)\n    results = _calc_stats(", 'Z2b')
 T('C02', 'ravel-order-C', 'zonal.py', "    flatten_zones = zones.ravel()\n", "    flatten_zones = zones.ravel(order='C')\n")
+
+# ------------------------------------------------------------------------------------------------ C14
+M('C14', 'pixel-id-truncate', 'pathfinding.py', "    py = int(abs(point[0] - y_coords[0]) / cellsize_y + 0.5)", "    py = int(abs(point[0] - y_coords[0]) / cellsize_y)", 'A1')
+M('C14', 'pixel-id-wrong-cellsize', 'pathfinding.py', "    px = int(abs(point[1] - x_coords[0]) / cellsize_x + 0.5)", "    px = int(abs(point[1] - x_coords[0]) / cellsize_y + 0.5)", 'A1')
+M('C14', 'pixel-id-res-swapped', 'pathfinding.py', "    cellsize_x, cellsize_y = get_dataarray_resolution(raster, xdim, ydim)", "    cellsize_y, cellsize_x = get_dataarray_resolution(raster, xdim, ydim)", 'A1')
+M('C14', 'heuristic-manhattan', 'pathfinding.py', "    return _distance(x1, y1, x2, y2)\n\n\n@ngjit\ndef _min_cost_pixel_id", "    return abs(x1 - x2) + abs(y1 - y2)\n\n\n@ngjit\ndef _min_cost_pixel_id", 'A2')
+M('C14', 'heuristic-overweighted', 'pathfinding.py', "    return _distance(x1, y1, x2, y2)\n\n\n@ngjit\ndef _min_cost_pixel_id", "    return 1.5 * _distance(x1, y1, x2, y2)\n\n\n@ngjit\ndef _min_cost_pixel_id", 'A2')
+M('C14', 'table8-missing-diagonal', 'pathfinding.py', "        neighbor_xs = [-1, -1, -1, 0, 0, 1, 1, 1]\n        neighbor_ys = [-1, 0, 1, -1, 1, -1, 0, 1]", "        neighbor_xs = [-1, -1, -1, 0, 0, 1, 1, 1]\n        neighbor_ys = [-1, 0, 1, -1, 1, -1, 0, -1]", 'A3')
+M('C14', 'path-holds-f-cost', 'pathfinding.py', "            _reconstruct_path(path_img, parent_ys, parent_xs,\n                              d_from_start, start_py, start_px,", "            _reconstruct_path(path_img, parent_ys, parent_xs,\n                              cost, start_py, start_px,", 'A4')
+M('C14', 'closed-test-removed', 'pathfinding.py', "            # check if neighbor is in the closed list\n            if is_closed[neighbor_y, neighbor_x]:\n                continue\n", "", 'A5')
+M('C14', 'crossable-test-removed', 'pathfinding.py', "            # walkable\n            if _is_not_crossable(data[neighbor_y][neighbor_x], barriers):\n                continue\n", "", 'A5')
+M('C14', 'bounds-wrong-extent', 'pathfinding.py', "            if neighbor_y > height - 1 or neighbor_y < 0 \\\n                    or neighbor_x > width - 1 or neighbor_x < 0:", "            if neighbor_y > width - 1 or neighbor_y < 0 \\\n                    or neighbor_x > height - 1 or neighbor_x < 0:", 'A5')
+M('C14', 'parent-swapped', 'pathfinding.py', "            parent_ys[neighbor_y, neighbor_x] = py\n            parent_xs[neighbor_y, neighbor_x] = px", "            parent_ys[neighbor_y, neighbor_x] = px\n            parent_xs[neighbor_y, neighbor_x] = py", 'A5')
+M('C14', 'snap-min-attainable', 'pathfinding.py', "    min_distance = np.inf\n", "    min_distance = _distance(0, 0, height - 1, width - 1)\n", 'A6')
+M('C14', 'nan-crossable', 'pathfinding.py', "    # nan cell is not walkable\n    if np.isnan(cell_value):\n        return True\n", "", 'A5')
+M('C14', 'start-cost-one', 'pathfinding.py', "        d_from_start[start_py, start_px] = 0\n", "        d_from_start[start_py, start_px] = 1\n", 'A4')
+T('C14', 'pixel-id-round', 'pathfinding.py', "    py = int(abs(point[0] - y_coords[0]) / cellsize_y + 0.5)", "    py = int(round(abs(point[0] - y_coords[0]) / cellsize_y))")
+T('C14', 'bounds-ge', 'pathfinding.py', "            if neighbor_y > height - 1 or neighbor_y < 0 \\\n                    or neighbor_x > width - 1 or neighbor_x < 0:", "            if neighbor_y >= height or neighbor_y < 0 \\\n                    or neighbor_x >= width or neighbor_x < 0:")
+T('C14', 'heuristic-zero', 'pathfinding.py', "    return _distance(x1, y1, x2, y2)\n\n\n@ngjit\ndef _min_cost_pixel_id", "    return 0.0\n\n\n@ngjit\ndef _min_cost_pixel_id")
